@@ -33,7 +33,8 @@ def r2_send(ctx):
     repo = ctx.repo
     fi = repo.func(f"{CM}.ReliableSender.send")
     ctx.analysed(fi.qual)
-    env = {"self.idx": 5, "self.address": "me", "self.inflight": {}, "self.hosts": {"H": (Sym("sockH"), "addrH")}}
+    from .common import host_entry as he
+    env = {"self.idx": 5, "self.address": "me", "self.inflight": {}, "self.hosts": {"H": he(repo, Sym("sockH"), "addrH")}}
     ip = Interp(repo, call_models={"time.time_ns": lambda *a: NOW})
     paths = ip.explore(fi, env=env, args={"host": "H", "m": Atom("M")})
     ctx.evals(len(paths))
@@ -86,7 +87,7 @@ def r3_retry_and_ack(ctx):
     for remaining in (3, 1):
         for host_known in (True, False):
             env = {"self.resend_grace": 100, "self.inflight": {1: _rec(NOW - 1000, remaining), 2: _rec(NOW - 10, 7)},
-                   "self.hosts": {"H": (Sym("sockH"), "a")} if host_known else {}}
+                   "self.hosts": {"H": __import__("sa.props.common", fromlist=["host_entry"]).host_entry(repo, Sym("sockH"), "a")} if host_known else {}}
             paths = ip.explore(fi, env=env)
             ctx.evals(len(paths))
             atoms = {"stale_record_remaining": remaining, "host_known": host_known}
@@ -295,7 +296,8 @@ def r1_receive_loops(ctx):
     repo = ctx.repo
     from ..evalx import AnyKeyDict
     hc = AnyKeyDict(True, Obj(f"{CM}.GraceWatcher", {}, name="gw"), "heartbeat_checker")
-    hosts = {"H1": (Sym("s"), "a"), "data.H1": (Sym("s2"), "b")}
+    from .common import host_entry as he
+    hosts = {"H1": he(repo, Sym("s"), "a"), "data.H1": he(repo, Sym("s2"), "b")}
     for qual, env, label in (
         (f"{BR}.recv_events", {"self.heartbeat_checker": hc, "self.sender.hosts": dict(hosts)}, "controller receive loop"),
         (f"{EX}.recv_loop", {"self.terminating": False, "self.workers": {}, "self.datasets": set()}, "executor receive loop"),
